@@ -4,6 +4,7 @@ relies on is no longer found in the expected syntactic form."""
 import ast
 import os
 
+OUTPUTS = ["gen/C13Consts.v"]   # deleted by the harness when generate() raises: dependents stop compiling
 VERIF = os.path.dirname(os.path.dirname(os.path.dirname(os.path.abspath(__file__))))
 REPO = os.environ.get("VERIF_REPO", "/repo")
 Q = os.path.join(REPO, "src", "aioquic", "quic")
@@ -74,6 +75,44 @@ def _is_attr(e, obj, attr):
     return isinstance(e, ast.Attribute) and e.attr == attr and isinstance(e.value, ast.Name) and e.value.id == obj
 
 
+def _int_expr(e, env):
+    """Value of an int expression made of literals, module constants already extracted (env), + and -."""
+    if isinstance(e, ast.Constant) and isinstance(e.value, int) and not isinstance(e.value, bool):
+        return e.value
+    if isinstance(e, ast.Name) and isinstance(env.get(e.id), int):
+        return env[e.id]
+    if isinstance(e, ast.BinOp) and isinstance(e.op, (ast.Add, ast.Sub)):
+        a, b = _int_expr(e.left, env), _int_expr(e.right, env)
+        return a + b if isinstance(e.op, ast.Add) else a - b
+    raise ValueError("start_frame: reserve expression is not made of int literals / known constants / + / -")
+
+
+def _start_frame_reserve(fn, env):
+    """start_frame must begin with
+           if self.packet_is_empty:
+               capacity = max(capacity, E)
+       directly followed by the space check `if ... < capacity ...: raise QuicPacketBuilderStop` (fix e93c691:
+       room for the header-protection sample padding of a one-byte packet).  Returns the value of E."""
+    body = [n for n in fn.body if not (isinstance(n, ast.Expr) and isinstance(n.value, ast.Constant))]
+    if len(body) < 2:
+        raise ValueError("start_frame: body too short")
+    first, second = body[0], body[1]
+    ok = isinstance(first, ast.If) and _is_attr(first.test, "self", "packet_is_empty") and not first.orelse \
+        and len(first.body) == 1 and isinstance(first.body[0], ast.Assign) and len(first.body[0].targets) == 1 \
+        and isinstance(first.body[0].targets[0], ast.Name) and first.body[0].targets[0].id == "capacity"
+    if ok:
+        v = first.body[0].value
+        ok = isinstance(v, ast.Call) and isinstance(v.func, ast.Name) and v.func.id == "max" and len(v.args) == 2 \
+            and not v.keywords and isinstance(v.args[0], ast.Name) and v.args[0].id == "capacity"
+    if not ok:
+        raise ValueError("start_frame does not begin with 'if self.packet_is_empty: capacity = max(capacity, E)'")
+    if not (isinstance(second, ast.If) and len(second.body) == 1 and isinstance(second.body[0], ast.Raise)
+            and isinstance(second.body[0].exc, ast.Name) and second.body[0].exc.id == "QuicPacketBuilderStop"
+            and any(isinstance(m, ast.Name) and m.id == "capacity" for m in ast.walk(second.test))):
+        raise ValueError("start_frame: the capacity reservation is not directly followed by the space check")
+    return _int_expr(first.body[0].value.args[1], env)
+
+
 def extract():
     c = {}
     pb = _parse("packet_builder.py")
@@ -107,6 +146,7 @@ def extract():
 
     pk = _parse("packet.py")
     c["PACKET_NUMBER_MAX_SIZE"] = _module_int(pk, "PACKET_NUMBER_MAX_SIZE")
+    c["START_FRAME_EMPTY_RESERVE"] = _start_frame_reserve(_func(_class(pb, "QuicPacketBuilder"), "start_frame"), c)
     pt = _enum(pk, "QuicPacketType")
     for k in ("INITIAL", "ZERO_RTT", "HANDSHAKE", "ONE_RTT"):
         c["PT_" + k] = pt[k]
